@@ -126,7 +126,7 @@ def _results(c):
     return (c.tp, c.fp, c.id_switch, round(c.tp_matching_score, 9), c.mota, c.motp)
 
 
-MODES = [("CENTERDISTANCE", MatchingMode.CENTERDISTANCE, 1.0), ("IOU2D", MatchingMode.IOU2D, 0.3)]
+MODES = [("CENTERDISTANCE", MatchingMode.CENTERDISTANCE, 1.0), ("IOU2D", MatchingMode.IOU2D, 0.3), ("CENTERDISTANCE@0", MatchingMode.CENTERDISTANCE, 0.0)]
 
 
 def _score_of(e, g, mode):
@@ -141,9 +141,26 @@ def check_history(case, acc):
         acc.violation(sig, msg + " | history=%s G=%s mode=%s" % (hist, num_gt, case["mode"]), case)
 
     mname, mode, thr = next(m for m in MODES if m[0] == case["mode"])
+    if thr == 0.0:   # the strictest distance threshold: no pair is near
+        hist_eff = [tuple((e, g, False) for (e, g, n) in f) for f in hist]
+    else:
+        hist_eff = hist
+    frames = [[R(e, g, n) for (e, g, n) in f] for f in hist]
+    shape0 = [len(f) for f in frames]
     acc.exec()
-    c = run_clear(hist, num_gt, mode, thr)
+    c = CLEAR(frames, num_gt, [CAR], mode, [thr])
     acc.compared()
+    if len(hist) <= 4:
+        # scoring the same per-frame lists again (also at another threshold first, as evaluate_tracking does) must give the same
+        # result and leave the caller's lists untouched
+        acc.exec(2)
+        CLEAR(frames, num_gt, [CAR], mode, [50.0 if mode == MatchingMode.CENTERDISTANCE else 0.0])
+        c_again = CLEAR(frames, num_gt, [CAR], mode, [thr])
+        if [len(f) for f in frames] != shape0:
+            bad("container-mutated", "CLEAR modified the caller's per-frame result lists: %s -> %s" % (shape0, [len(f) for f in frames]))
+        if _results(c_again) != _results(c):
+            bad("re-evaluation-differs", "scoring the same history again gives %s, first %s" % (_results(c_again), _results(c)))
+    hist_report, hist = hist, hist_eff
     nres = sum(len(f) for f in hist[1:])
     st = all(stable(hist[i - 1], hist[i]) for i in range(1, len(hist)))
     # (i) accounting identity on all histories
@@ -183,7 +200,7 @@ def check_history(case, acc):
     base = _results(c)
     for re, rg in RENAMINGS:
         acc.exec()
-        c2 = run_clear(hist, num_gt, mode, thr, re, rg)
+        c2 = run_clear(hist_report, num_gt, mode, thr, re, rg)
         if _results(c2) != base:
             bad("renaming", "renaming estimates %s / ground truths %s changes the result: %s -> %s" % (re, rg, base, _results(c2)))
     last, prev = hist[-1], hist[-2]
@@ -198,7 +215,7 @@ def run_unit(unit, acc):
     if k == "hist":
         def rec(h, depth):
             for gcount in ((3,) if len(h) < depth + 1 else (0, 1, 3, 7)):
-                for m in (MODES if gcount == 3 else MODES[:1]):
+                for m in (MODES if (gcount == 3 and len(h) <= 3) else (MODES[:2] if gcount == 3 else MODES[:1])):
                     check_case(dict(kind="hist", hist=[list(map(list, f)) for f in h], G=gcount, mode=m[0]), acc)
             if len(h) < depth + 1:
                 for f in FR2:
